@@ -38,7 +38,7 @@ PROPS = {
                 claim='dfa_size_analyzer arithmetic (prim/add/rep: {0} keeps the slice, {n} adds n-1 copies) under an explicit no-wrap precondition; cvector preconditions (size < N) as call-site obligations; stack/capacity of the driver; add_situation capacity preconditions',
                 assumptions=['analyser vs builder lock-step over the same parse is not mechanised; the builder (rep/cat/alt/...) is not under contract', 'sufficiency of the default table caps is a counting (pigeonhole) argument, not mechanised',
                              'nothing in the header establishes the no-wrap precondition of dfa_size_analyzer::rep (finding D12)']),
-    'C02': dict(units=['driver', 'stdex', 'dfa', 'terms', 'rules', 'values', 'glue'],
+    'C02': dict(units=['driver', 'stdex', 'dfa', 'terms', 'rules', 'values', 'glue', 'reductors'],
                 claim='driver-level half of bottom-up evaluation: which rule functor is invoked, with which stack slice, in which order, once; shift applies the term functor of the shifted term to the pending lexeme; success returns the bottom value',
                 assumptions=[L_PATH, L_IDS, TABLE_WF, R13, 'that the popped slice is the handle of the unique derivation is the LR(1) theorem (C01), not mechanised']),
     'C04': dict(units=['driver', 'utils', 'dfa', 'buffers', 'terms', 'values'], static=[SF.buffers_static],
@@ -57,7 +57,7 @@ PROPS = {
     'C10': dict(units=['driver', 'values'],
                 claim="source_point::update follows the statement's rule byte by byte; every advance of the parse position is paired with an update over exactly that range; values and messages carry the source point of the pending term's first byte",
                 assumptions=['line/column counters below 2^30 (cannot be reached with buffers <= 4096 bytes; the counters are 32-bit)', LEXER]),
-    'C14': dict(units=['driver', 'stdex'],
+    'C14': dict(units=['driver', 'stdex', 'reductors'],
                 claim='driver-level linearity of value identifiers: ids on the stack are pairwise distinct, reduce erases exactly the slice it passed, pop_stacks discards, success returns the bottom; nothing reads an erased slot',
                 assumptions=[L_PATH, L_IDS, R13, 'rvalue passing, move-only types, moved-from reads inside reduce_value_impl and exactly-once destruction are C++ object semantics outside the verified text']),
     'C15': dict(units=['driver'], all=['driver'], static=[SF.c15_static],
